@@ -93,7 +93,8 @@ def _run_coroutine(self, target, signal=None):
     if p.record:
         p.acts.append((p.k, now, id(target),
                        None if signal is None else type(signal).__name__,
-                       getattr(target, '__qualname__', '')))
+                       getattr(target, '__qualname__', ''),
+                       id(signal) if signal is not None else 0))
     p.k += 1
     return _ORIG_RUN(self, target, signal)
 
